@@ -121,7 +121,13 @@ public:
 
     auto ret = UNSAFE_unverified();
     if (ret != nullptr) {
-      size_t bytes = sizeof(T) * count;
+      // the caller uses the raw pointer to access count elements of the
+      // pointed-to type, so that is the range that has to be in bounds
+      using T_El = std::conditional_t<std::is_void_v<T_Pointed> ||
+                                        std::is_function_v<T_Pointed>,
+                                      char,
+                                      T_Pointed>;
+      size_t bytes = detail::checked_range_size(count, sizeof(T_El));
       detail::check_range_doesnt_cross_app_sbx_boundary<T_Sbx>(ret, bytes);
     }
     return ret;
